@@ -205,6 +205,32 @@ pub fn gen_volume(src: &mut Src, _i: usize) -> Case {
     case
 }
 
+/// longevity: hundreds to thousands of calls on one terminal (counters, epochs, caches)
+pub fn gen_many_calls(src: &mut Src, _i: usize) -> Case {
+    let (cols, rows) = gen::small_size(src);
+    let mut g = G::new(cols, rows).with_raw(1);
+    g.ris = src.chance(1, 4);
+    let mut case = Case::new(cols, rows, gen::limit(src));
+    let n = *src.pick(&[260usize, 300, 520, 1100, 4200]);
+    for k in 0..n {
+        match src.below(30) {
+            0 => {
+                let (c, r) = gen::resize_target(src, &g);
+                g.cols = c;
+                g.rows = r;
+                case.calls.push(Call::Resize(c, r));
+            }
+            1 => case.calls.push(Call::Feed(gen::frag(src, &g))),
+            2 => case.calls.push(src.pick(&[Call::Dump, Call::Text, Call::Query]).clone()),
+            3 | 4 => case.calls.push(Call::FeedStr(String::new())),
+            5..=12 => case.calls.push(Call::FeedStr(gen::frag(src, &g))),
+            _ => case.calls.push(Call::FeedStr(format!("l{}\r\n", k))),
+        }
+    }
+    case.nums = vec![src.below(3), src.chance(1, 4) as usize];
+    case
+}
+
 /// enumerated: every count-taking control with 65535 on every small size, on both screens
 fn enum_huge_counts() -> Vec<Case> {
     let mut v = vec![];
@@ -243,6 +269,7 @@ pub fn run(env: &Env) -> PropRun {
     parts.push(random_part(env, "random-small", n, &gen_small, &j));
     parts.push(random_part(env, "random-any-size", n / 4, &gen_big, &j));
     parts.push(random_part(env, "garbage", n / 2, &gen_garbage, &j));
+    parts.push(random_part(env, "many-calls", env.tier.scale(300, 20), &gen_many_calls, &j));
     parts.push(random_part(env, "volume", env.tier.scale(300, 20), &gen_volume, &j));
     PropRun {
         parts,
